@@ -38,7 +38,9 @@ def build():
     u.macro(H, "get_hook_output")
     u.verify(H, "call_single", "hooks", props=["C10"], fns={"call_single": FnSpec(ret="r", ghost=True, sig="""
     requires !old(w).running,
-    ensures !final(w).running,
+    ensures r is Ok ==> !final(w).running,
+        // an error between spawn and wait (stdin template / stdin write) must not leave the child un-waited
+        r is Err ==> !final(w).running, //@C10.no_child_left_running_on_error
         // the hook's command is spawned once, with the documented arguments / environment / redirections, and waited for;
         // a failing exit status is an error unless allow_failure is set
         r is Ok ==> (proc_of(*hook, data) matches Some(p) && final(w).spawned == old(w).spawned.push(p)), //@C10.process_is_the_configured_command
@@ -46,6 +48,8 @@ def build():
             || (proc_of(*hook, data) matches Some(p) && final(w).spawned == old(w).spawned.push(p)), //@C10.error_leaves_at_most_this_process
 """, loops={1: """
     invariant render_all(lst@.take(it.index@), data) == Some(strs(v@)), hook.args == Some(*lst), *w == *old(w),
+""", 2: """
+    invariant proc_of(*hook, data) matches Some(p) && w.spawned == old(w).spawned.push(p),
 """}, at=[("before", "lst.iter()", 1, "it:"),
           ("before_stmt", "for fmt in", 1, "proof { assert(lst@.take(0) =~= Seq::<String>::empty()); assert(strs(v@) =~= Seq::<Seq<char>>::empty()); }"),
           ("after_stmt", "v.push(s)", 1, """
@@ -63,7 +67,7 @@ def build():
     cond = m.group("c")
     u.verify(H, "call", "hooks", props=["C10"], fns={"call": FnSpec(ret="r", ghost=True, sig="""
     requires !old(w).running,
-    ensures !final(w).running,
+    ensures r is Ok ==> !final(w).running,
         // exactly the hooks whose type list contains the event's type are run, one after the other, in declaration order;
         // the first hard failure aborts the sequence
         r is Ok ==> final(w).spawned == old(w).spawned + selected(hooks@, hook_type, *data, hooks@.len() as int), //@C10.hooks_of_this_type_in_order
